@@ -1,4 +1,24 @@
+/-
+  C01 — posit arithmetic is correctly rounded, for every nbits ≥ 2, every es, every operand.
+
+  Structure of the proof (helpers in UVerifProofs/Lemmas/Posit*.lean):
+    PositEnc     unbounded encoding `Benc`, strictly monotone like the value
+    PositFields  a magnitude IS the unbounded encoding of its value (bit-level identity)
+    PositOrder   monotonicity of posVal, (n+1)-bit midpoints, signed order
+    PositRound   `nearestMagB` = round-to-nearest-even of `Benc`, clamped; uniqueness; sticky lemma
+    PositConvert `convert_` rounds correctly (all sign, scale, fraction widths)
+    PositDecode  `decode` returns the Standard's value
+    PositArith   `module_multiply` exact; special encodings
+    PositSticky / PositCuts / PositAdd   sticky images keep all comparisons with (n+1)-bit posits;
+                 `module_add`, `module_subtract`
+    PositDiv     `module_divide`: truncated quotient keeps all comparisons
+    PositRecip   `reciprocal`: power-of-two shortcut exact, truncated reciprocal otherwise
+-/
 import UVerif.Model.Posit
+import UVerifProofs.Lemmas.PositArith
+import UVerifProofs.Lemmas.PositAdd
+import UVerifProofs.Lemmas.PositDiv
+import UVerifProofs.Lemmas.PositRecip
 open UVerif UVerif.Posit
 
 /-- negation is an involution on encodings (two's complement twice), for every width. -/
@@ -11,3 +31,478 @@ theorem C01_neg_involutive (n a : Nat) (h : a < 2 ^ n) : neg n (neg n a) = a := 
     rw [h1, Nat.mod_eq_of_lt h2, Nat.mod_eq_of_lt h2]
     have : 2 ^ n - (2 ^ n - a) = a := by omega
     rw [this, h1]
+
+/-! ### decode / convert -/
+
+/-- decoding: the (sign, scale, fraction) triple of a non-special encoding has the Standard's value -/
+theorem C01_decode_value (n es a : ℕ) (hn : 2 ≤ n) (ha : a < 2 ^ n) (h0 : a ≠ 0)
+    (hnar : a ≠ 2 ^ (n - 1)) : positVal n es a = some (decode n es a).toRat :=
+  (decode_value n es a hn ha h0 hnar).1
+
+example : positVal 16 2 0x7ff3 = some (decode 16 2 0x7ff3).toRat :=
+  C01_decode_value 16 2 0x7ff3 (by decide) (by decide) (by decide) (by decide)
+
+/-- `convert_` (regime/exponent/fraction assembly, blast/bafter/bsticky rounding, projection clamp)
+    returns the posit the Standard selects for ±2^scale·(1+frac/2^fb): all n ≥ 2, es, fb. -/
+theorem C01_convert_correct (n es : ℕ) (hn : 2 ≤ n) (sign : Bool) (scale : ℤ) (fb frac : ℕ)
+    (hfrac : frac < 2 ^ fb) :
+    PositNearest n es ((if sign then -1 else 1) * ((2 : ℚ) ^ scale * (1 + (frac : ℚ) / 2 ^ fb)))
+      (convert_ n es sign scale fb frac) :=
+  convert_correct n es hn sign scale fb frac hfrac
+
+/-- non-vacuity: posit<16,2>, scale 25 → regime of 7 ones, only 5 bits left, the 2-bit exponent is
+    followed by 4 of the 9 fraction bits; the rest is rounded. -/
+example : PositNearest 16 2 ((2 : ℚ) ^ (25 : ℤ) * (1 + (0x155 : ℕ) / 2 ^ 9))
+    (convert_ 16 2 false 25 9 0x155) := by
+  have := C01_convert_correct 16 2 (by decide) false 25 9 0x155 (by decide)
+  simpa using this
+
+/-- the rounding relation has exactly one solution -/
+theorem C01_nearest_unique (n es : ℕ) (hn : 2 ≤ n) (sign : Bool) (s : ℤ) (f : ℚ) (hf : 0 ≤ f)
+    (hf1 : f < 1) (r r' : ℕ) (hr : r < 2 ^ n) (hr' : r' < 2 ^ n)
+    (h : PositNearest n es ((if sign then -1 else 1) * ((2 : ℚ) ^ s * (1 + f))) r)
+    (h' : PositNearest n es ((if sign then -1 else 1) * ((2 : ℚ) ^ s * (1 + f))) r') : r = r' :=
+  nearestB_unique n es hn sign s f hf hf1 r r' hr hr' h h'
+
+/-- a real-valued posit is the correct rounding of its own value -/
+theorem C01_exact_fixed (n es a : ℕ) (hn : 2 ≤ n) (ha : a < 2 ^ n) (x : ℚ)
+    (hx : positVal n es a = some x) : PositNearest n es x a :=
+  nearestB_self n es a hn ha x hx
+
+/-! ### multiplication -/
+
+/-- multiplication of two real-valued posits is correctly rounded (every nbits ≥ 2, es, operands) -/
+theorem C01_mul (n es a b : ℕ) (hn : 2 ≤ n) (ha : a < 2 ^ n) (hb : b < 2 ^ n) (x y : ℚ)
+    (hx : positVal n es a = some x) (hy : positVal n es b = some y) :
+    PositNearest n es (x * y) (mul n es a b) := by
+  have hna : a ≠ 2 ^ (n - 1) := fun h => by
+    rw [(positVal_none_iff n es a ha).mpr h] at hx; exact absurd hx (by simp)
+  have hnb : b ≠ 2 ^ (n - 1) := fun h => by
+    rw [(positVal_none_iff n es b hb).mpr h] at hy; exact absurd hy (by simp)
+  have hia : isNaR n a = false := by
+    rw [← Bool.not_eq_true, isNaR_iff n a ha]; exact hna
+  have hib : isNaR n b = false := by
+    rw [← Bool.not_eq_true, isNaR_iff n b hb]; exact hnb
+  unfold PositNearest mul
+  simp only [Nat.mod_eq_of_lt ha, Nat.mod_eq_of_lt hb, hia, hib, Bool.or_self, Bool.false_eq_true,
+    if_false]
+  by_cases hz : a = 0 ∨ b = 0
+  · have : (decide (a = 0) || decide (b = 0)) = true := by simpa using hz
+    rw [if_pos this]
+    have hxy : x * y = 0 := by
+      rcases hz with rfl | rfl
+      · rw [(positVal_zero_iff n es 0 hn ha).mpr rfl] at hx
+        rw [← Option.some.inj hx]; ring
+      · rw [(positVal_zero_iff n es 0 hn hb).mpr rfl] at hy
+        rw [← Option.some.inj hy]; ring
+    rw [hxy]; unfold nearestB; simp
+  · have : (decide (a = 0) || decide (b = 0)) = false := by simpa using hz
+    rw [if_neg (by rw [this]; simp)]
+    rw [not_or] at hz
+    obtain ⟨fa, fba, va⟩ := decode_fin n es a hn ha hz.1 hna
+    obtain ⟨fb', fbb, vb⟩ := decode_fin n es b hn hb hz.2 hnb
+    obtain ⟨fm, vm⟩ := moduleMul_exact (fbitsOf n es) _ _ fa fb' fba fbb
+    rw [hx] at va; rw [hy] at vb
+    rw [Option.some.inj va, Option.some.inj vb, ← vm]
+    exact convert_val_correct n es hn _ fm
+
+/-- non-vacuity: posit<16,2>, 0x7a31 · 0x7b05 has a truncated exponent field in the result -/
+example : PositNearest 16 2 ((3 / 2 : ℚ) * (5 / 4)) (mul 16 2 0x4400 0x4200) :=
+  C01_mul 16 2 0x4400 0x4200 (by decide) (by decide) (by decide) _ _ (by decide +kernel)
+    (by decide +kernel)
+
+example : ∃ x y, positVal 16 2 0x7a31 = some x ∧ positVal 16 2 0x7b05 = some y ∧
+    PositNearest 16 2 (x * y) (mul 16 2 0x7a31 0x7b05) := by
+  have h1 : positVal 16 2 0x7a31 ≠ none := by decide
+  have h2 : positVal 16 2 0x7b05 ≠ none := by decide
+  obtain ⟨x, hx⟩ := Option.ne_none_iff_exists'.mp h1
+  obtain ⟨y, hy⟩ := Option.ne_none_iff_exists'.mp h2
+  exact ⟨x, y, hx, hy, C01_mul 16 2 _ _ (by decide) (by decide) (by decide) x y hx hy⟩
+
+
+/-! ### negation, absolute value -/
+
+/-- unary minus is exact: the value is negated, NaR stays NaR -/
+theorem C01_neg_exact (n es a : ℕ) (hn : 2 ≤ n) (ha : a < 2 ^ n) :
+    positVal n es (neg n a) = (positVal n es a).map (fun x => -x) := by
+  have hp := two_pow_pred n (by omega)
+  have hpos : 0 < 2 ^ (n - 1) := by positivity
+  unfold neg twosComp
+  rw [Nat.mod_eq_of_lt ha]
+  by_cases h0 : a = 0
+  · subst h0; simp [positVal]
+  · have e : (2 ^ n - a) % 2 ^ n = 2 ^ n - a := Nat.mod_eq_of_lt (by omega)
+    rw [e]
+    unfold positVal
+    simp only [Nat.mod_eq_of_lt ha, Nat.mod_eq_of_lt (show 2 ^ n - a < 2 ^ n by omega)]
+    rw [if_neg (by omega), if_neg h0]
+    by_cases h1 : a = 2 ^ (n - 1)
+    · rw [if_pos (by omega), if_pos h1]; rfl
+    · rw [if_neg (by omega), if_neg h1]
+      by_cases h2 : a < 2 ^ (n - 1)
+      · rw [if_neg (by omega), if_pos h2]
+        simp only [Option.map_some]
+        rw [show 2 ^ n - (2 ^ n - a) = a by omega]
+      · rw [if_pos (by omega), if_neg h2]
+        simp
+
+example : positVal 16 2 (neg 16 0x7a31) = (positVal 16 2 0x7a31).map (fun x => -x) :=
+  C01_neg_exact 16 2 0x7a31 (by decide) (by decide)
+
+/-- abs is exact: the value is replaced by its absolute value, NaR stays NaR -/
+theorem C01_abs_exact (n es a : ℕ) (hn : 2 ≤ n) (ha : a < 2 ^ n) :
+    positVal n es (Posit.abs n a) = (positVal n es a).map (fun x => |x|) := by
+  obtain ⟨N, rfl⟩ : ∃ N, n = N + 2 := ⟨n - 2, by omega⟩
+  have hp : 2 ^ (N + 2) = 2 * 2 ^ (N + 1) := by rw [pow_succ]; ring
+  have hpos : 0 < 2 ^ (N + 1) := by positivity
+  unfold Posit.abs
+  simp only [Nat.mod_eq_of_lt ha, show N + 2 - 1 = N + 1 from rfl]
+  rw [testBit_top N a ha]
+  by_cases h : 2 ^ (N + 1) ≤ a
+  · simp only [h, decide_true, if_true]
+    have := C01_neg_exact (N + 2) es a hn ha
+    unfold neg at this
+    rw [this]
+    by_cases h1 : a = 2 ^ (N + 1)
+    · rw [(positVal_none_iff (N + 2) es a ha).mpr h1]; rfl
+    · unfold positVal
+      simp only [Nat.mod_eq_of_lt ha, show N + 2 - 1 = N + 1 from rfl]
+      rw [if_neg (by omega), if_neg h1, if_neg (by omega)]
+      have hv := posVal_pos (N + 2) es (2 ^ (N + 2) - a) hn (by omega) (by simp only [show N + 2 - 1 = N + 1 from rfl]; omega)
+      simp only [Option.map_some, neg_neg, abs_neg, abs_of_pos hv]
+  · simp only [h, decide_false, Bool.false_eq_true, if_false]
+    by_cases h0 : a = 0
+    · subst h0; simp [positVal]
+    · unfold positVal
+      simp only [Nat.mod_eq_of_lt ha, show N + 2 - 1 = N + 1 from rfl]
+      rw [if_neg h0, if_neg (by omega), if_pos (by omega)]
+      have hv := posVal_pos (N + 2) es a hn (by omega) (by simp only [show N + 2 - 1 = N + 1 from rfl]; omega)
+      simp only [Option.map_some, abs_of_pos hv]
+
+example : positVal 16 2 (Posit.abs 16 0xc400) = (positVal 16 2 0xc400).map (fun x => |x|) :=
+  C01_abs_exact 16 2 0xc400 (by decide) (by decide)
+
+/-! ### NaR / zero rows -/
+
+/-- special rows of the operator tables: NaR propagates, x/0 = NaR, 0 is neutral / absorbing -/
+theorem C01_special (n es a b : ℕ) (hn : 2 ≤ n) (ha : a < 2 ^ n) (hb : b < 2 ^ n) :
+    ((a = 2 ^ (n - 1) ∨ b = 2 ^ (n - 1)) →
+        add n es a b = 2 ^ (n - 1) ∧ sub n es a b = 2 ^ (n - 1) ∧ mul n es a b = 2 ^ (n - 1) ∧
+        div n es a b = 2 ^ (n - 1)) ∧
+    (b = 0 → div n es a b = 2 ^ (n - 1)) ∧
+    (a ≠ 2 ^ (n - 1) → add n es a 0 = a ∧ sub n es a 0 = a ∧ mul n es a 0 = 0 ∧ mul n es 0 a = 0 ∧
+        add n es 0 a = a ∧ sub n es 0 a = neg n a) ∧
+    (b ≠ 0 → b ≠ 2 ^ (n - 1) → div n es 0 b = 0) ∧
+    positVal n es (2 ^ (n - 1)) = none ∧ positVal n es 0 = some 0 := by
+  have hp := two_pow_pred n (by omega)
+  have hpos : 0 < 2 ^ (n - 1) := by positivity
+  have hnarlt : 2 ^ (n - 1) < 2 ^ n := by omega
+  have hn0 : isNaR n 0 = false := by
+    rw [← Bool.not_eq_true, isNaR_iff n 0 (by omega)]; omega
+  have hnn : isNaR n (2 ^ (n - 1)) = true := (isNaR_iff n _ hnarlt).mpr rfl
+  refine ⟨?_, ?_, ?_, ?_, (positVal_none_iff n es _ hnarlt).mpr rfl, (positVal_zero_iff n es 0 hn (by omega)).mpr rfl⟩
+  · intro h
+    have hor : (isNaR n a || isNaR n b) = true := by
+      rcases h with h | h
+      · rw [(isNaR_iff n a ha).mpr h]; rfl
+      · rw [(isNaR_iff n b hb).mpr h]; simp
+    unfold add sub mul div
+    simp only [Nat.mod_eq_of_lt ha, Nat.mod_eq_of_lt hb, hor, if_true, true_and]
+    by_cases hb0 : b = 0
+    · rw [if_pos hb0]
+    · rw [if_neg hb0]
+      by_cases hbn : isNaR n b = true
+      · rw [if_pos hbn]
+      · rw [if_neg hbn]
+        have han : isNaR n a = true := by
+          rcases h with h | h
+          · exact (isNaR_iff n a ha).mpr h
+          · exact absurd ((isNaR_iff n b hb).mpr h) hbn
+        have : (decide (a = 0) || isNaR n a) = true := by rw [han]; simp
+        rw [if_pos this]; exact (isNaR_iff n a ha).mp han
+  · intro h
+    subst h
+    unfold div
+    simp
+  · intro h
+    have han : isNaR n a = false := by
+      rw [← Bool.not_eq_true, isNaR_iff n a ha]; exact h
+    have hm : a % 2 ^ n = a := Nat.mod_eq_of_lt ha
+    refine ⟨?_, ?_, ?_, ?_, ?_, ?_⟩
+    · unfold add; simp only [hm, Nat.zero_mod, han, hn0, Bool.or_self, Bool.false_eq_true, if_false, if_true]
+      split <;> simp_all
+    · unfold sub; simp only [hm, Nat.zero_mod, han, hn0, Bool.or_self, Bool.false_eq_true, if_false, if_true]
+      split <;> simp_all [negEnc, twosComp]
+    · unfold mul; simp [hm, han, hn0]
+    · unfold mul; simp [hm, han, hn0]
+    · unfold add; simp [hm, han, hn0]
+    · unfold sub negEnc neg; simp [hm, han, hn0]
+  · intro h0 hnar
+    have hbn : isNaR n b = false := by
+      rw [← Bool.not_eq_true, isNaR_iff n b hb]; exact hnar
+    unfold div
+    simp only [Nat.mod_eq_of_lt hb, Nat.zero_mod, h0, hbn, if_false, Bool.false_eq_true, decide_true,
+      Bool.true_or, if_true]
+
+
+/-! ### addition, subtraction -/
+
+/-- addition of two real-valued posits is correctly rounded (every nbits ≥ 2, es, operands) -/
+theorem C01_add (n es a b : ℕ) (hn : 2 ≤ n) (ha : a < 2 ^ n) (hb : b < 2 ^ n) (x y : ℚ)
+    (hx : positVal n es a = some x) (hy : positVal n es b = some y) :
+    PositNearest n es (x + y) (add n es a b) := by
+  have hna : a ≠ 2 ^ (n - 1) := fun h => by
+    rw [(positVal_none_iff n es a ha).mpr h] at hx; exact absurd hx (by simp)
+  have hnb : b ≠ 2 ^ (n - 1) := fun h => by
+    rw [(positVal_none_iff n es b hb).mpr h] at hy; exact absurd hy (by simp)
+  have hia : isNaR n a = false := by
+    rw [← Bool.not_eq_true, isNaR_iff n a ha]; exact hna
+  have hib : isNaR n b = false := by
+    rw [← Bool.not_eq_true, isNaR_iff n b hb]; exact hnb
+  unfold PositNearest add
+  simp only [Nat.mod_eq_of_lt ha, Nat.mod_eq_of_lt hb, hia, hib, Bool.or_self, Bool.false_eq_true,
+    if_false]
+  by_cases ha0 : a = 0
+  · rw [if_pos ha0]
+    subst ha0
+    rw [(positVal_zero_iff n es 0 hn ha).mpr rfl] at hx
+    rw [← Option.some.inj hx, zero_add]
+    exact nearestB_self n es b hn hb y hy
+  · rw [if_neg ha0]
+    by_cases hb0 : b = 0
+    · rw [if_pos hb0]
+      subst hb0
+      rw [(positVal_zero_iff n es 0 hn hb).mpr rfl] at hy
+      rw [← Option.some.inj hy, add_zero]
+      exact nearestB_self n es a hn ha x hx
+    · rw [if_neg hb0]
+      obtain ⟨fa, fba, va⟩ := decode_fin n es a hn ha ha0 hna
+      obtain ⟨fb', fbb, vb⟩ := decode_fin n es b hn hb hb0 hnb
+      rw [hx] at va; rw [hy] at vb
+      rw [Option.some.inj va, Option.some.inj vb]
+      exact moduleAdd_correct n es hn _ _ fa fb' fba fbb
+
+/-- non-vacuity: posit<16,2>, 0x7a31 + 0x0203: scale gap far above abits (pure sticky operand) -/
+example : ∃ x y, positVal 16 2 0x7a31 = some x ∧ positVal 16 2 0x0203 = some y ∧
+    PositNearest 16 2 (x + y) (add 16 2 0x7a31 0x0203) := by
+  have h1 : positVal 16 2 0x7a31 ≠ none := by decide
+  have h2 : positVal 16 2 0x0203 ≠ none := by decide
+  obtain ⟨x, hx⟩ := Option.ne_none_iff_exists'.mp h1
+  obtain ⟨y, hy⟩ := Option.ne_none_iff_exists'.mp h2
+  exact ⟨x, y, hx, hy, C01_add 16 2 _ _ (by decide) (by decide) (by decide) x y hx hy⟩
+
+/-- subtraction of two real-valued posits is correctly rounded (every nbits ≥ 2, es, operands) -/
+theorem C01_sub (n es a b : ℕ) (hn : 2 ≤ n) (ha : a < 2 ^ n) (hb : b < 2 ^ n) (x y : ℚ)
+    (hx : positVal n es a = some x) (hy : positVal n es b = some y) :
+    PositNearest n es (x - y) (sub n es a b) := by
+  have hna : a ≠ 2 ^ (n - 1) := fun h => by
+    rw [(positVal_none_iff n es a ha).mpr h] at hx; exact absurd hx (by simp)
+  have hnb : b ≠ 2 ^ (n - 1) := fun h => by
+    rw [(positVal_none_iff n es b hb).mpr h] at hy; exact absurd hy (by simp)
+  have hia : isNaR n a = false := by
+    rw [← Bool.not_eq_true, isNaR_iff n a ha]; exact hna
+  have hib : isNaR n b = false := by
+    rw [← Bool.not_eq_true, isNaR_iff n b hb]; exact hnb
+  unfold PositNearest sub
+  simp only [Nat.mod_eq_of_lt ha, Nat.mod_eq_of_lt hb, hia, hib, Bool.or_self, Bool.false_eq_true,
+    if_false]
+  by_cases ha0 : a = 0
+  · rw [if_pos ha0]
+    subst ha0
+    rw [(positVal_zero_iff n es 0 hn ha).mpr rfl] at hx
+    rw [← Option.some.inj hx, zero_sub]
+    have hneg := C01_neg_exact n es b hn hb
+    rw [hy] at hneg
+    have hlt : neg n b < 2 ^ n := by unfold neg twosComp; exact Nat.mod_lt _ (by positivity)
+    exact nearestB_self n es (negEnc n b) hn hlt (-y) hneg
+  · rw [if_neg ha0]
+    by_cases hb0 : b = 0
+    · rw [if_pos hb0]
+      subst hb0
+      rw [(positVal_zero_iff n es 0 hn hb).mpr rfl] at hy
+      rw [← Option.some.inj hy, sub_zero]
+      exact nearestB_self n es a hn ha x hx
+    · rw [if_neg hb0]
+      obtain ⟨fa, fba, va⟩ := decode_fin n es a hn ha ha0 hna
+      obtain ⟨fb', fbb, vb⟩ := decode_fin n es b hn hb hb0 hnb
+      rw [hx] at va; rw [hy] at vb
+      rw [Option.some.inj va, Option.some.inj vb]
+      exact moduleSub_correct n es hn _ _ fa fb' fba fbb
+
+/-- non-vacuity: near-cancellation a − (a + 1ulp) in posit<16,2> -/
+example : ∃ x y, positVal 16 2 0x5a31 = some x ∧ positVal 16 2 0x5a32 = some y ∧
+    PositNearest 16 2 (x - y) (sub 16 2 0x5a31 0x5a32) := by
+  have h1 : positVal 16 2 0x5a31 ≠ none := by decide
+  have h2 : positVal 16 2 0x5a32 ≠ none := by decide
+  obtain ⟨x, hx⟩ := Option.ne_none_iff_exists'.mp h1
+  obtain ⟨y, hy⟩ := Option.ne_none_iff_exists'.mp h2
+  exact ⟨x, y, hx, hy, C01_sub 16 2 _ _ (by decide) (by decide) (by decide) x y hx hy⟩
+
+/-- x − x = 0 exactly -/
+theorem C01_sub_self (n es a : ℕ) (hn : 2 ≤ n) (ha : a < 2 ^ n) (hna : a ≠ 2 ^ (n - 1)) :
+    sub n es a a = 0 := by
+  have hia : isNaR n a = false := by
+    rw [← Bool.not_eq_true, isNaR_iff n a ha]; exact hna
+  unfold sub
+  simp only [Nat.mod_eq_of_lt ha, hia, Bool.or_self, Bool.false_eq_true, if_false]
+  by_cases ha0 : a = 0
+  · rw [if_pos ha0]; subst ha0; unfold negEnc twosComp; simp
+  · rw [if_neg ha0, if_neg ha0]
+    obtain ⟨fa, fba, _⟩ := decode_fin n es a hn ha ha0 hna
+    generalize decode n es a = v at *
+    unfold moduleSub
+    simp only [fa.ni, Bool.or_self, Bool.false_eq_true, if_false]
+    rcases addCore_spec (fbitsOf n es) v v fa fa fba fba v.sign (!v.sign) (absLt v v)
+        (fun _ => rfl) with ⟨hz, _⟩ | ⟨σ, g, S, hout, hE⟩
+    · unfold convert; rw [if_pos hz]
+    · exfalso
+      obtain ⟨_, S0, S', hst, _, hpos, hS, _⟩ := hout
+      have hSpos : 0 < S0 := sticky_pos hst hpos
+      rw [sgn_not] at hE
+      have h0 : sgn σ * (S * 2 ^ g) = 0 := by rw [← hE]; ring
+      have hg := two_zpow_pos g
+      have : sgn σ ≠ 0 := by unfold sgn; cases σ <;> simp
+      rw [← hS] at h0
+      have : S0 * 2 ^ g = 0 := by
+        rcases mul_eq_zero.mp h0 with h | h
+        · exact absurd h this
+        · exact h
+      have : 0 < S0 * 2 ^ g := by positivity
+      linarith
+
+
+/-! ### division -/
+
+/-- division of two real-valued posits (divisor ≠ 0) is correctly rounded (every nbits ≥ 2, es,
+    operands): the quotient truncated at 2·fhbits+4 bits rounds like the exact quotient. -/
+theorem C01_div (n es a b : ℕ) (hn : 2 ≤ n) (ha : a < 2 ^ n) (hb : b < 2 ^ n) (x y : ℚ)
+    (hx : positVal n es a = some x) (hy : positVal n es b = some y) (hy0 : y ≠ 0) :
+    PositNearest n es (x / y) (div n es a b) := by
+  have hna : a ≠ 2 ^ (n - 1) := fun h => by
+    rw [(positVal_none_iff n es a ha).mpr h] at hx; exact absurd hx (by simp)
+  have hnb : b ≠ 2 ^ (n - 1) := fun h => by
+    rw [(positVal_none_iff n es b hb).mpr h] at hy; exact absurd hy (by simp)
+  have hia : isNaR n a = false := by
+    rw [← Bool.not_eq_true, isNaR_iff n a ha]; exact hna
+  have hib : isNaR n b = false := by
+    rw [← Bool.not_eq_true, isNaR_iff n b hb]; exact hnb
+  have hb0 : b ≠ 0 := fun h => by
+    subst h
+    rw [(positVal_zero_iff n es 0 hn hb).mpr rfl] at hy
+    exact hy0 (Option.some.inj hy).symm
+  unfold PositNearest div
+  simp only [Nat.mod_eq_of_lt ha, Nat.mod_eq_of_lt hb, hia, hib, Bool.false_eq_true, if_false, if_neg hb0,
+    Bool.or_false]
+  by_cases ha0 : a = 0
+  · subst ha0
+    rw [(positVal_zero_iff n es 0 hn ha).mpr rfl] at hx
+    rw [← Option.some.inj hx]
+    simp only [decide_true, if_true, zero_div]
+    exact nearestB_zero n es
+  · simp only [ha0, decide_false, Bool.false_eq_true, if_false]
+    obtain ⟨fa, fba, va⟩ := decode_fin n es a hn ha ha0 hna
+    obtain ⟨fb', fbb, vb⟩ := decode_fin n es b hn hb hb0 hnb
+    rw [hx] at va; rw [hy] at vb
+    rw [Option.some.inj va, Option.some.inj vb]
+    exact moduleDiv_correct n es hn _ _ fa fb' fba fbb
+
+/-- non-vacuity: posit<16,2> 0x5a31 / 0x4c07 -/
+example : ∃ x y, positVal 16 2 0x5a31 = some x ∧ positVal 16 2 0x4c07 = some y ∧ y ≠ 0 ∧
+    PositNearest 16 2 (x / y) (div 16 2 0x5a31 0x4c07) := by
+  have h1 : positVal 16 2 0x5a31 ≠ none := by decide
+  have h2 : positVal 16 2 0x4c07 ≠ none := by decide
+  obtain ⟨x, hx⟩ := Option.ne_none_iff_exists'.mp h1
+  obtain ⟨y, hy⟩ := Option.ne_none_iff_exists'.mp h2
+  have hy0 : y ≠ 0 := by
+    intro h; rw [h] at hy
+    have := (positVal_zero_iff 16 2 0x4c07 (by decide) (by decide)).mp hy
+    exact absurd this (by decide)
+  exact ⟨x, y, hx, hy, hy0, C01_div 16 2 _ _ (by decide) (by decide) (by decide) x y hx hy hy0⟩
+
+/-! ### reciprocal -/
+
+/-- `reciprocal` of a non-zero real-valued posit is the correctly rounded 1/x (every nbits ≥ 2, es) -/
+theorem C01_reciprocal (n es a : ℕ) (hn : 2 ≤ n) (ha : a < 2 ^ n) (x : ℚ)
+    (hx : positVal n es a = some x) (hx0 : x ≠ 0) :
+    PositNearest n es (1 / x) (reciprocal n es a) := by
+  obtain ⟨N, rfl⟩ : ∃ N, n = N + 2 := ⟨n - 2, by omega⟩
+  have hna : a ≠ 2 ^ (N + 1) := fun h => by
+    rw [(positVal_none_iff (N + 2) es a ha).mpr h] at hx; exact absurd hx (by simp)
+  have ha0 : a ≠ 0 := fun h => by
+    subst h
+    rw [(positVal_zero_iff (N + 2) es 0 hn ha).mpr rfl] at hx
+    exact hx0 (Option.some.inj hx).symm
+  obtain ⟨x', h1, _, h3⟩ := reciprocal_correct N es a ha ha0 hna
+  rw [hx] at h1
+  rw [Option.some.inj h1]; exact h3
+
+/-- reciprocal of 0 and of NaR is NaR -/
+theorem C01_reciprocal_special (n es : ℕ) (hn : 2 ≤ n) :
+    reciprocal n es 0 = 2 ^ (n - 1) ∧ reciprocal n es (2 ^ (n - 1)) = 2 ^ (n - 1) := by
+  have hp := two_pow_pred n (by omega)
+  have hpos : 0 < 2 ^ (n - 1) := by positivity
+  have hn0 : isNaR n 0 = false := by
+    rw [← Bool.not_eq_true, isNaR_iff n 0 (by omega)]; omega
+  have hnn : isNaR n (2 ^ (n - 1)) = true := (isNaR_iff n _ (by omega)).mpr rfl
+  constructor
+  · unfold reciprocal; simp [hn0]
+  · unfold reciprocal
+    simp only [Nat.mod_eq_of_lt (show 2 ^ (n - 1) < 2 ^ n by omega), hnn, if_true]
+
+/-- non-vacuity: posit<16,2>: a power of two (shortcut branch) and a general operand -/
+example : ∃ x, positVal 16 2 0x7000 = some x ∧ x ≠ 0 ∧ PositNearest 16 2 (1 / x) (reciprocal 16 2 0x7000) := by
+  obtain ⟨x, h1, h2, h3⟩ := reciprocal_correct 14 2 0x7000 (by decide) (by decide) (by decide)
+  exact ⟨x, h1, h2, h3⟩
+
+example : ∃ x, positVal 16 2 0x5a31 = some x ∧ x ≠ 0 ∧ PositNearest 16 2 (1 / x) (reciprocal 16 2 0x5a31) := by
+  obtain ⟨x, h1, h2, h3⟩ := reciprocal_correct 14 2 0x5a31 (by decide) (by decide) (by decide)
+  exact ⟨x, h1, h2, h3⟩
+
+/-! ### structure of the rounding relation -/
+
+/-- appending a zero bit to an encoding keeps the value (n-bit posits are (n+1)-bit posits) -/
+theorem C01_posVal_double (n es y : ℕ) (hn : 2 ≤ n) (hy0 : 0 < y) (hy : y < 2 ^ (n - 1)) :
+    posVal (n + 1) es (2 * y) = posVal n es y := posVal_double n es y hn hy0 hy
+
+/-- the (n+1)-bit posit 2y+1 (the Standard's rounding boundary) lies strictly between y and y+1 -/
+theorem C01_posVal_midpoint (n es y : ℕ) (hn : 2 ≤ n) (hy0 : 0 < y) (hy : y + 1 < 2 ^ (n - 1)) :
+    posVal n es y < posVal (n + 1) es (2 * y + 1) ∧
+    posVal (n + 1) es (2 * y + 1) < posVal n es (y + 1) := posVal_midpoint n es y hn hy0 hy
+
+/-- the Standard's rule is round-to-nearest-even of the unbounded encoding, clamped to [minpos, maxpos] -/
+theorem C01_nearest_of_rne (n es : ℕ) (hn : 2 ≤ n) (s : ℤ) (f : ℚ) (hf : 0 ≤ f) (hf1 : f < 1) :
+    nearestMagB n es ((2 : ℚ) ^ s * (1 + f)) (clampMag n (rne (encS n es s f))) = true :=
+  nearest_of_rne n es hn s f hf hf1
+
+/-- a non-zero real never rounds to 0 or NaR -/
+theorem C01_never_zero_nor_nar (n es : ℕ) (hn : 2 ≤ n) (x : ℚ) (r : ℕ) (hx : x ≠ 0)
+    (h : PositNearest n es x r) : r % 2 ^ n ≠ 0 ∧ r % 2 ^ n ≠ 2 ^ (n - 1) := by
+  have hp := two_pow_pred n (by omega)
+  have hpos : 0 < 2 ^ (n - 1) := by positivity
+  have hlt : r % 2 ^ n < 2 ^ n := Nat.mod_lt _ (by positivity)
+  unfold PositNearest nearestB at h
+  simp only [if_neg hx] at h
+  by_cases hp0 : x > 0
+  · rw [if_pos hp0] at h
+    simp only [Bool.and_eq_true, decide_eq_true_eq] at h
+    obtain ⟨h1, h2⟩ := h
+    unfold nearestMagB at h2
+    simp only [] at h2
+    by_cases hz : r % 2 ^ n = 0 ∨ r % 2 ^ n > maxposEnc n
+    · rw [if_pos hz] at h2; exact absurd h2 (by simp)
+    · exact ⟨fun h0 => hz (Or.inl h0), by omega⟩
+  · rw [if_neg hp0] at h
+    simp only [Bool.and_eq_true, decide_eq_true_eq] at h
+    obtain ⟨h1, h2⟩ := h
+    exact ⟨by omega, by omega⟩
+
+/-- C01 in one statement: for every nbits ≥ 2, every es and every pair of real-valued operands the
+    five arithmetic operators return the posit the Standard's rounding rule selects for the exact result. -/
+theorem C01_arith (n es a b : ℕ) (hn : 2 ≤ n) (ha : a < 2 ^ n) (hb : b < 2 ^ n) (x y : ℚ)
+    (hx : positVal n es a = some x) (hy : positVal n es b = some y) :
+    PositNearest n es (x + y) (add n es a b) ∧ PositNearest n es (x - y) (sub n es a b) ∧
+    PositNearest n es (x * y) (mul n es a b) ∧ (y ≠ 0 → PositNearest n es (x / y) (div n es a b)) ∧
+    (x ≠ 0 → PositNearest n es (1 / x) (reciprocal n es a)) :=
+  ⟨C01_add n es a b hn ha hb x y hx hy, C01_sub n es a b hn ha hb x y hx hy,
+   C01_mul n es a b hn ha hb x y hx hy, C01_div n es a b hn ha hb x y hx hy,
+   C01_reciprocal n es a hn ha x hx⟩
